@@ -22,7 +22,26 @@ pub struct Cand {
 }
 
 /// candidate menu built from the current state of the world; `now` is used for oracle timestamps
+/// registry / switch operations only (small menu, searched two steps deep)
+pub fn admin_menu(w: &World) -> Vec<Cand> {
+    let vis = vinfos(w);
+    let mut out: Vec<Cand> = vec![];
+    for v in &vis {
+        out.push(Cand { snd: w.if_owner(), msg: Msg::IfAdd { v: v.id }, funds: 0 });
+        out.push(Cand { snd: w.if_owner(), msg: Msg::IfRm { v: v.id }, funds: 0 });
+        out.push(Cand { snd: w.vamm_owner(&v.addr), msg: Msg::VSetOpen { v: v.id, uopen: !v.open as u64 }, funds: 0 });
+    }
+    out.push(Cand { snd: w.pauser(), msg: Msg::Pause { p: !w.engine_paused() as u64 }, funds: 0 });
+    out.push(Cand { snd: w.if_owner(), msg: Msg::IfShutdown, funds: 0 });
+    out
+}
+
+pub static MENU: std::sync::OnceLock<String> = std::sync::OnceLock::new();
+
 pub fn menu(w: &World) -> Vec<Cand> {
+    if MENU.get().map(|m| m == "admin").unwrap_or(false) {
+        return admin_menu(w);
+    }
     let d = w.cfg.d;
     let vis = vinfos(w);
     let ps = w.positions();
